@@ -27,6 +27,9 @@ type MongoMutex struct {
 
 func (m *MongoMutex) Lock(ctx context.Context, ops ...mod.LockOptionOp) error {
 	opt := mod.NewLockOption(ops)
+	// a previous acquisition of this handle (expired, or taken over by somebody else) must not
+	// make this call look successful
+	m.lockDetail = nil
 	if err := m.spinLock(ctx, opt); err != nil {
 		return err
 	}
